@@ -556,6 +556,9 @@ func rulesC12(cx *Ctx) []Obligation {
 						diag = append(diag, site+": "+why)
 						continue
 					}
+				} else if okk, why := r.leafWhole(rec, w.leafPat); !okk {
+					diag = append(diag, site+": "+why)
+					continue
 				}
 				matched = true
 				obs = append(obs, good(w.key, w.desc, site))
@@ -627,6 +630,31 @@ func sameChain(a, b []CallStep) bool {
 		}
 	}
 	return true
+}
+
+// leafWhole: the leaf handed to the hash (first hashing call in the Merkle function) is the opened leaf itself — the
+// whole element list of the oracle's opening, not a sub-slice or a value chosen per configuration (a trailing salt
+// or any other element left out would not be covered by the cap).
+func (r *Run) leafWhole(eq *Rec, leafPat string) (bool, string) {
+	re := patRe(leafPat)
+	for _, rec := range r.Recs {
+		if rec.Kind != "call" || rec.Callee == nil || rec.Callee.Name() != "HashOrNoop" || !sameChain(rec.Chain, eq.Chain) || len(rec.Args) < 2 {
+			continue
+		}
+		a := rec.Args[1]
+		if a == nil {
+			return false, "the hashed leaf is unknown"
+		}
+		p, ok := a.Definite()
+		if !ok || a.CSel != "" || !re.MatchString(p) {
+			return false, "the hashed leaf is " + a.short(2) + ", not the whole list of opened elements " + leafPat
+		}
+		if !rec.Must {
+			return false, "the leaf hash is conditional"
+		}
+		return true, ""
+	}
+	return false, "no HashOrNoop of the leaf in the function performing the Merkle check"
 }
 
 // leafBothCoords: the leaf handed to the hash (first hashing call in the Merkle function) contains both coordinates
@@ -886,7 +914,80 @@ func rulesC13(cx *Ctx) []Obligation {
 	if !found {
 		obs = append(obs, bad(key, desc, "the loop over query rounds does not cover every round (start, bound, early exit) or the length equality guard is missing"))
 	}
+	obs = append(obs, ruleBatchShift(cx)...)
 	return obs
+}
+
+// ruleBatchShift (O13.5): when the initial-tree evaluations are combined batch by batch, the running sum is shifted
+// by α^(number of evaluations reduced in this batch): the exponent handed to ExpExtension is the length of the very
+// slice handed to ReduceWithPowers (or of the batch's polynomial list it is built from), with the same α.
+func ruleBatchShift(cx *Ctx) []Obligation {
+	key := "C13/O13.5/batch-shift"
+	desc := "between opening batches the running sum is multiplied by α^n with n the number of evaluations reduced in that batch (length of the slice given to ReduceWithPowers, same α), so batches do not share powers of α"
+	r := cx.Entry("fri", "(*Chip).friCombineInitial")
+	if r == nil {
+		return []Obligation{undecided(key, desc, "fri.Chip.friCombineInitial not found")}
+	}
+	P := cx.P
+	rwp := P.Func("goldilocks", "(*Chip).ReduceWithPowers")
+	exp := P.Func("goldilocks", "(*Chip).ExpExtension")
+	var red, ex []*Rec
+	for _, rec := range r.Recs {
+		if rec.Kind != "call" || len(rec.Chain) != 0 {
+			continue
+		}
+		if rec.Callee == rwp && rwp != nil {
+			red = append(red, rec)
+		}
+		if rec.Callee == exp && exp != nil {
+			ex = append(ex, rec)
+		}
+	}
+	if len(red) != 1 || len(ex) != 1 || len(red[0].Args) < 3 || len(ex[0].Args) < 3 {
+		return []Obligation{undecided(key, desc, fmt.Sprintf("%d ReduceWithPowers / %d ExpExtension calls in friCombineInitial (expected one each)", len(red), len(ex)))}
+	}
+	rd, e := red[0], ex[0]
+	site := r.site(e)
+	if !rd.Must || !e.Must || len(rd.Loops) == 0 || len(e.Loops) == 0 || rd.Loops[len(rd.Loops)-1] != e.Loops[len(e.Loops)-1] {
+		return []Obligation{bad(key, desc, "the reduction and the shift do not both execute in every iteration of the same batch loop", site)}
+	}
+	a1, ok1 := rd.Args[2].Definite()
+	a2, ok2 := e.Args[1].Definite()
+	if !ok1 || !ok2 || a1 != a2 {
+		return []Obligation{bad(key, desc, "the shift does not use the same α as the reduction", site)}
+	}
+	coll := rd.Args[1]
+	n := e.Args[2]
+	want := ""
+	if coll != nil && coll.Cell != nil {
+		want = coll.Cell.find().Tag + coll.CSel
+	}
+	okk := false
+	if n != nil && want != "" {
+		for _, l := range n.LenOf {
+			if l == want {
+				okk = true
+			}
+		}
+		if n.Aux != nil && n.Aux.Cell != nil && coll.Cell != nil && n.Aux.Cell.find() == coll.Cell.find() && baseSel(n.Aux.CSel) == baseSel(coll.CSel) {
+			okk = true
+		}
+	}
+	// equivalent: the length of the batch's polynomial list, when the slice holds one evaluation per polynomial
+	if !okk && n != nil && len(n.LenOf) == 1 && strings.HasSuffix(n.LenOf[0], "].Polynomials") && coll != nil && coll.Cell != nil {
+		iv := fmt.Sprintf("[iv%d].Polynomials", e.Loops[len(e.Loops)-1])
+		if strings.HasSuffix(n.LenOf[0], iv) {
+			okk = true
+		}
+	}
+	if !okk {
+		got := "?"
+		if n != nil {
+			got = n.short(2)
+		}
+		return []Obligation{bad(key, desc, "the exponent of α is "+got+", not the number of evaluations reduced in this batch", site)}
+	}
+	return []Obligation{good(key, desc, site)}
 }
 
 var bigOne = func() *big.Int { return big.NewInt(1) }()
